@@ -317,3 +317,26 @@ Definition rt_engine (c : val) : val :=
       end
   | _ => bad_case
   end.
+
+(* ---------- C29 (and the encoders as a whole) under concurrency ----------
+   case = the observations of the vbi engine (VL (VN 0 :: _), VL (VN 1 :: _)) and of codec_rt
+          (VL (VN 2 :: _)) made while 12-16 goroutines encode at the same time, each into its own
+          buffer; they are judged exactly as in the sequential engines
+        | VL [VN 9; VL names]   the package-level variables of package packets that some function
+          writes (go/ast scan, harness/cmd/hx/eng_codec_par.go).  The codec is called from every
+          client's goroutine without locking, so there must be none: the allow-list is empty. *)
+Definition shared_state_allowed : list bytes := [].
+
+(* ENGINE codec_par Codec.CodecEngine.par_engine *)
+Definition par_engine (c : val) : val :=
+  match c with
+  | VL [VN 9; VL names] =>
+      if forallb (fun n => match n with
+                           | VB b => existsb (beq_bytes b) shared_state_allowed
+                           | _ => false
+                           end) names
+      then verdict 0 (tag "codec-no-shared-mutable-state") true []
+      else verdict 1 (tag "codec-shared-mutable-state") true [VL names]
+  | VL (VN 0 :: _) | VL (VN 1 :: _) => Vbi.vbi_engine c
+  | _ => rt_engine c
+  end.
